@@ -132,8 +132,8 @@ def pair_task(t):
             srv = W.ScriptedServer(store={"a": b"keep;\r\n"}, active="a", version=True)
             s = wire.open_session(srv)
             srv.script = [line1, line2]
-            s.call(op, *OPS[op])
-            o = s.call(op, *OPS[op])
+            s.call(op.split("-")[0], *OPS[op])
+            o = s.call(op.split("-")[0], *OPS[op])
             n += 1
             bad = judge(op, None, code2, rc2, tx2, o, None)
             if bad:
